@@ -55,6 +55,9 @@ func (c14) Gen(rng *rand.Rand, tier string, k int) *Case {
 	if n >= 3 && rng.Intn(12) == 0 {
 		c.Repeat = 2 + rng.Intn(n-1) // a second bar for the same day (a correction, an extra session)
 	}
+	if rng.Intn(12) == 0 {
+		c.Shape = ShapeCloseOnly // rows with a close but without open, high and low
+	}
 	if S > 2 && rng.Intn(12) == 0 {
 		c.Pad = 1 + rng.Intn(S/2) // position (1-based) of a snapshot with a zero close (field reused)
 	}
